@@ -29,7 +29,8 @@ FORMATS = ["%Y-%m-%d", "%d.%m.%Y", "%Y-%m-%dT%H:%M:%S", "%Y-%m-%dT%H:%M:%S.%f", 
 EDGE_DATES = ["2020-12-31", "2021-01-03", "2021-01-04", "2024-02-29", "1969-12-31", "1970-01-01", "2015-12-28",
               "2016-01-03", "0001-01-01", "9999-12-31", "1999-12-31", "2000-01-01", "1900-02-28"]
 PATTERNS = ["[a-z]", r"\d+", "x*", "$", "^", "(a)(b)?", r"\s+", ".", "a|b", "(?P<n>é)", "a", "ab", "b", "é", "1", " "]
-STRINGS = ["", "a", "ab", "abc abc", "A1 b22", "é", "日本 x", "xxx", " ", "a\nb", "12", "AB", "aAbB", "É a"]
+STRINGS = ["", "a", "ab", "abc abc", "A1 b22", "é", "日本 x", "xxx", " ", "a\nb", "12", "AB", "aAbB", "É a",
+           "ab\x00", "\x00a", "a\x00b", "a" * 60, "😀a"]      # NULs (fixed-width strings drop trailing ones), long, astral
 UNITS = {"D": "d", "s": "ts", "ms": "tm", "us": "t"}
 
 
@@ -94,7 +95,7 @@ def _re_plan(draw, max_len):
     if fn == "split":
         plan["maxsplit"] = draw(st.sampled_from([0, 1, 2]))
     if fn in ("sub", "subn"):
-        plan["repl"] = draw(st.sampled_from(["", "!", "\\1", "<\\g<0>>", "\\\\", "\\n", "[\\g<0>\\g<0>]"]))
+        plan["repl"] = draw(st.sampled_from(["", "!", "\\1", "<\\g<0>>", "\\\\", "\\n", "[\\g<0>\\g<0>]", "\x00", "z" * 40]))
         plan["count"] = draw(st.sampled_from([0, 1, 2]))
     return plan
 
@@ -324,7 +325,11 @@ def _check_re(plan, ctx):
         if [str(y) for y in np.asarray(up)] != [str(y) for y in np.strings.upper(np.asarray(x))]:
             raise Violation("Vector.str.upper differs from numpy.strings.upper")
         ln = x.str.str_len()
-        if [int(y) for y in np.asarray(ln)] != [len(v) for v in vals]:
+        # the .str proxy is numpy.strings (which does not count trailing NULs): that is the reference, len() only
+        # where the two agree by definition
+        if [int(y) for y in np.asarray(ln)] != [int(y) for y in np.strings.str_len(np.asarray(x))]:
+            raise Violation("Vector.str.str_len differs from numpy.strings.str_len", got=[int(y) for y in np.asarray(ln)])
+        if not any(v.endswith("\x00") for v in vals) and [int(y) for y in np.asarray(ln)] != [len(v) for v in vals]:
             raise Violation("Vector.str.str_len differs from len()", got=[int(y) for y in np.asarray(ln)])
         sw = x.str.startswith("a")
         if [bool(y) for y in np.asarray(sw)] != [v.startswith("a") for v in vals]:
